@@ -23,8 +23,8 @@
 //!   F4  every input port of every ALU / permutation / recompose row reads value+1 row-locally,
 //!       the row's result is recomputed and propagated;
 //!   F3  every public slot +1 in every row that mentions it, nothing recomputed;
-//!   F1  every cell of the Public table +1 (hook H4), nothing recomputed (quick: first and last
-//!       limb of every row; thorough: every limb);
+//!   F1  every cell of the Public table +1 (hook H4), nothing recomputed (quick: the limb-0 cell
+//!       of every row and F3 on observed publics only; thorough: every limb, every public);
 //!   P   (configurations whose permutation table chains the capacity in-table, D=1): the
 //!       permutation closure deviates on its k-th call in capacity limb j (every k, every
 //!       j in 8..16); the real executor chains the deviated output into the next row and
@@ -621,8 +621,10 @@ struct Fx<B: Cfg> {
     prove_all: bool,
 }
 
-/// Quick tier: Public-table cells of the first and the last limb only (thorough: every limb).
-static F1_ALL_LIMBS: AtomicBool = AtomicBool::new(true);
+/// Thorough tier: every limb cell of the Public table (F1) and F3 on every public slot.
+/// Quick tier: limb-0 cells only (a non-base observed value is out of the property's domain,
+/// a non-base sampled output is the same forgery as its limb-0 variant), F3 on observed publics.
+static FULL_PUBLIC_FAULTS: AtomicBool = AtomicBool::new(true);
 
 trait DynFx: Send + Sync {
     fn devs(&self, units: &[usize]) -> Vec<Dev>;
@@ -852,22 +854,28 @@ impl<B: Cfg> DynFx for Fx<B> {
     fn devs(&self, units: &[usize]) -> Vec<Dev> {
         let mut v = vec![Dev::Honest];
         // the tagging constant K belongs to the harness' exposure of the samples, not to the
-        // challenger: its slot is not deviated
+        // challenger: neither its slot nor the ports reading it are deviated
         let k_slot: Option<u32> = self.fx.circuit.ops.iter().find_map(|op| match op {
             Op::Const { out, val } if *val == emb::<B>(B::BF::from_u64(K)) => Some(out.0),
             _ => None,
         });
+        let full = FULL_PUBLIC_FAULTS.load(Ordering::Relaxed);
         for f in self.fx.enumerate(units) {
             let keep = match &f {
                 Fault::F2 { slot, .. } if Some(*slot) == k_slot => false,
+                Fault::F4 { op, port, .. } if self.port_slot(*op, *port).map(|s| s.0) == k_slot && k_slot.is_some() => {
+                    false
+                }
                 Fault::F2 { .. } | Fault::F2Sibling { .. } | Fault::F4 { .. } => true,
                 Fault::F3 { slot, .. } => {
+                    // quick: F3 on a public OUTPUT is the same forgery as F1 on its limb-0 cell
+                    // plus the exposure row; only the observed publics are kept
                     matches!(self.fx.definers.get(*slot as usize).cloned().flatten(), Some(Definer::PublicInput))
+                        && (full || self.prov(*slot, 0) != "sample-out")
                 }
                 Fault::F1 { table, col, .. } => {
                     let limb = col % B::D;
-                    self.fx.cellmap.tables.get(*table).map(|t| t.as_str()) == Some("public")
-                        && (F1_ALL_LIMBS.load(Ordering::Relaxed) || limb == 0 || limb == B::D - 1)
+                    self.fx.cellmap.tables.get(*table).map(|t| t.as_str()) == Some("public") && (full || limb == 0)
                 }
             };
             if keep {
@@ -1146,7 +1154,7 @@ fn main() {
         machinery_error("no configuration selected");
     }
     let prove_all = ctx.opt("prove") == Some("all");
-    F1_ALL_LIMBS.store(!ctx.quick(), Ordering::Relaxed);
+    FULL_PUBLIC_FAULTS.store(!ctx.quick(), Ordering::Relaxed);
     // soft cap: leave room for the proofs in flight and the evidence (quick: 45 s * 0.8 = 36 s)
     let cap = if ctx.quick() { 0.8 } else { 0.92 };
     let over = || ctx.used() >= cap;
